@@ -259,5 +259,24 @@ def run(rep, tier, seed, replay=None):
     # the flags of the real command-line tool (its timeout group is an Option: present iff one of its flags occurs): zero in every
     # spelling and malformed values end with a usage error, accepted values reach the library unchanged, omitted ones as 4 s / 0
     cliplan.run(rep, cliplan.gen_c18(seed + 18, tier), count="cli-flags")
+    # ---- accepted nanosecond / microsecond read timeouts on a REAL socket whose datagrams are already queued when the receive
+    # starts — from the peer and from a stranger (another port): whatever a receive computes from the time that has passed,
+    # it must not panic; it returns a datagram or the receive-class error
+    seq_lines = []
+    for fam in ("v4", "v6"):
+        for ns in (1, 1000, 999999, 50000000):
+            for j in range(2 if tier == "quick" else 10):
+                steps = ",".join(f"{rnd.choice([0, 10, 100, 1400])}:{rnd.choice(['-', '16', '2048'])}:{rnd.choice('msss')}" for _ in range(rnd.choice([2, 4])))
+                seq_lines.append(f"sq{fam}{ns}_{j} realseq {fam} {ns} {steps}")
+    simpl, spanics = vlib.run_impl(seq_lines, tag="c18s")
+    for l in seq_lines:
+        cid = l.split(" ", 1)[0]
+        out = simpl.get(cid, "")
+        rep.seen(l, out)
+        rep.count("tiny-timeouts-on-real-sockets")
+        bad = netprops.crash_oracle(l, out, out, spanics.get(cid, ""))
+        if not bad and (not out.startswith(("OK ", "ERR ")) or any(not (x.endswith("/T") or x.startswith("E")) for x in out[3:].split(",") if out.startswith("OK "))):
+            bad.append(("tiny-timeout:receive", f"a receive returned neither a datagram that was sent nor an error: {out[:160]}"))
+        rep.oracle_failures += [(sg, d, l, out[:300]) for sg, d in bad]
     rep.extra_cov["exhaustive"] = True
     rep.extra_cov["explanation"] = "the new/serde matrices are enumerated completely in both tiers; the flag matrix completely in the thorough tier"
